@@ -130,7 +130,7 @@ def run_into(res, prop, tier, scratch, binary):
             runs.append({"verifyonly": vo, "txmgr": tm, "prefix": prefix, "depth": depth, "mode": mode,
                          "sessions": r["sessions"], "messages": r["steps"], "classes": len(r["classes"]),
                          "diverging": len({d["beh"] for d in r["divergences"]})})
-            for s in r.get("samples", [])[:1]:
+            for s in (r.get("samples") or [])[:1]:
                 b = json.loads(s)
                 res.sample({"verifyonly": b["verifyonly"], "txmgr": b["txmgr"],
                             "messages": [[x["msg"], x["out"], x["sinks"], x["st"]["ready"], x["st"]["closed"]] for x in b["steps"]]})
